@@ -22,7 +22,7 @@ def db_versions():
         for name, e in db[cat].items():
             if e[0] and e[0][0]:
                 for v in e[0][0].split(','):
-                    prod, ver, cli = Algorithm.get_ssh_version(v)
+                    prod, ver, cli = H.db_version(v)
                     if ver and prod in out:
                         out[prod].add(ver)
     return out
@@ -113,7 +113,7 @@ def known_in(prod, version, cat, name):
         return None
     found = False
     for v in e[0][0].split(','):
-        p, ver, cli = Algorithm.get_ssh_version(v)
+        p, ver, cli = H.db_version(v)
         if not ver or p != prod or cli:
             continue
         found = True
@@ -132,10 +132,32 @@ def dbname(cat, n):
 
 
 def check(prod, version, banner, kind, st):
-    srv, lists = make_server(kind, banner)
+    check_server(prod, version, banner, kind, (lambda: make_server(kind, banner)), st)
+
+
+def work_zoo(chunk, st):
+    import re
+    from props import zoo
+    for name in chunk:
+        e = zoo.get(name)
+        if e['ssh1']:
+            continue
+        b = e['banner'].decode('utf-8', 'replace')
+        prod, version = None, None
+        for rx, p in ((r'^SSH-[\d.]+-OpenSSH[_-](\d+(?:\.\d+)*)', 'OpenSSH'), (r'^SSH-[\d.]+-dropbear_(\d+(?:\.\d+)*)', 'Dropbear SSH'), (r'^SSH-[\d.]+-libssh[-_](\d+(?:\.\d+)*)', 'libssh')):
+            m = re.match(rx, b)
+            if m:
+                prod, version = p, m.group(1)
+        if prod is None and 'Frob' not in b:
+            prod = 'other'       # recognised or not: only the rules that hold either way are applied
+        check_server(prod, version, e['banner'], 'zoo:' + name, (lambda e=e: (e['make'](), e['lists'])), st)
+
+
+def check_server(prod, version, banner, kind, mk, st):
+    srv, lists = mk()
     res = H.audit(srv, opts=['-n', '--skip-rate-test', '-j'])
-    st.execution(res.world, outcome=(prod, kind, res.status), root=(banner, kind), nontrivial=(banner, kind))
-    detail = {'banner': banner.decode(), 'peer': kind}
+    st.execution(res.world, outcome=(prod, kind if not kind.startswith('zoo:') else 'zoo', res.status), root=(banner, kind), nontrivial=(banner, kind))
+    detail = {'banner': banner.decode('utf-8', 'replace'), 'peer': kind}
     if res.status not in (0, 2, 3):
         st.violation('audit-failed', dict(detail, status=res.status, stdout=res.stdout[-300:]))
         return
@@ -152,7 +174,7 @@ def check(prod, version, banner, kind, st):
                     recs.append((level, action, cat, x['name']))
     recognised = prod is not None
     # text view shows the same recommendations
-    srv2, _ = make_server(kind, banner)
+    srv2, _ = mk()
     rt = H.audit(srv2, opts=['-n', '--skip-rate-test'])
     rep = report.TextReport(rt.stdout)
     st.execution(rt.world, outcome=('text', rt.status), root=(banner, kind, 'text'))
@@ -302,6 +324,8 @@ def run(tier, seed):
     hist = list(itertools.permutations(HISTORY_KINDS, 2)) + (list(itertools.permutations(HISTORY_KINDS, 3)) if tier != 'quick' else
                                                               [('exposed', 'terrapin-hardened', 'exposed'), ('smallrsa', 'clean', 'smallrsa'), ('gex2048', 'clean', 'gex2048')])
     par.pmap(work_history, hist, stats=st, chunk=2)
+    from props import zoo
+    par.pmap(work_zoo, [n for n in zoo.names(tier) if not n.startswith('c13:')], stats=st, chunk=4)
     par.pmap(work_client, [(b, k) for b in bs[::4] for k in ('all', 'even', 'odd', 'clean', 'terrapin-hardened', 'unknowns')], stats=st, chunk=4)
     vcases = []
     for (prod, version, banner), kind in H.pick(tasks, seed, 12 if tier == 'quick' else 60):
@@ -311,7 +335,7 @@ def run(tier, seed):
         PID, tier, seed, st, t0,
         rule='%d banners (OpenSSH/Dropbear/libssh at every first-appeared version in the DB, its nearest neighbours and multi-digit versions; TinySSH; '
              'unrecognised software) x %d peers (all DB names; even/odd-indexed names so every entry occurs advertised and not advertised; clean; '
-             'OpenSSH 2048-bit GEX; Terrapin-hardened; unknown names) x {json, text}' % (len(bs), len(PEER_KINDS)),
+             'OpenSSH 2048-bit GEX (one and both algorithms); Terrapin-hardened; unknown names) x {json, text}; the same rules over the peers of props/zoo.py' % (len(bs), len(PEER_KINDS)),
         assumptions=['ratings are read from the same report (JSON notes); availability uses numeric version order',
                      'entries without any version information are not required either way'],
         exhaustive=True, traces_validated=validated, extra={'banners': len(bs)})
